@@ -140,7 +140,17 @@ func init() {
 			c.Attr("mode", "pass-through")
 			c.Attr("client", k.name)
 			fam := world.FormToProtocol(k.form)
-			switch c.Free("target-set", 3) {
+			cfg.Decoy = true // an earlier and a later service with other options: those are theirs alone
+			defaults := k.form != wire.REST && k.codec != "alt" && (k.comp == "" || k.comp == "gzip")
+			ts := c.Free("target-set", 4)
+			if ts == 3 && !defaults {
+				ts = 0
+			}
+			switch ts {
+			case 3:
+				// the service leaves every option unset: the library's defaults (Connect, gRPC, gRPC-Web;
+				// proto and json; gzip) apply, whatever other services of the Transcoder were given
+				c.Attr("~options", "all unset (defaults)")
 			case 0:
 				cfg.Protocols = []vanguard.Protocol{fam}
 			case 1:
@@ -152,7 +162,11 @@ func init() {
 				}
 				cfg.Protocols = []vanguard.Protocol{other, fam}
 			}
-			switch c.Free("codec-set", 2) {
+			cs := c.Free("codec-set", 2)
+			if ts == 3 {
+				cs = 2
+			}
+			switch cs {
 			case 0:
 				cfg.Codecs = []string{k.codec}
 				if k.form == wire.REST {
@@ -161,7 +175,9 @@ func init() {
 			case 1:
 				cfg.Codecs = []string{"alt", "proto", "json"}
 			}
-			cfg.Compression = []string{"gzip", "rev"}
+			if ts != 3 {
+				cfg.Compression = []string{"gzip", "rev"}
+			}
 			if k.form == wire.REST {
 				switch k.name {
 				case "rest-post":
